@@ -777,13 +777,216 @@ func worldDigestFn() func() int {
 	}
 }
 
+// twinWorldDigest is worldDigestFn computed on fresh parses of the sources of the shared documents.
+func twinWorldDigest() int {
+	h := 0
+	for _, d := range worldDocs {
+		h = h*31 + newConcDoc(string(d.src)).digest()
+	}
+	if sharedArena != nil && !bytes.Equal(sharedArena, sharedArenaOrig) {
+		h ^= 0x5555
+	}
+	return h & 0xfffffff
+}
+
 // ---- free-running race stress
+
+// raceDocSources: documents whose consumers touch rarely used paths: a NUL in a fenced code block's info string (its text is
+// computed from a Source that was rewritten after parsing), list markers 7 to 9 digits wide (indentation wider than any
+// precomputed string), deep nesting, long lines.
+var raceDocSources = []string{
+	"```i\x00j k\ncode\x00\n```\n\n~~~ \x00\n~~~\n",
+	"1234567. x\n         y\n\n123456789) z\n           - w\n",
+	"> > > > > > > > deep *e* `c` [l](/u)\n",
+	"- a\n  - b\n    - c\n      - d\n        - e\n          - f\n            1. g\n",
+	"[r\x00s]: /u\x00 \"t\x00\"\n\n[x][r\x00s] ![r\ufffds]\n",
+	strings.Repeat("word &amp; <b> *e* ", 200) + "\n",
+}
+
+// Cold rounds. Whatever the library initialises, caches or grows on FIRST use must be first used by several goroutines at
+// the same time, and nothing in the harness may order the goroutines in between: no fmt (its sync.Pool hands happens-before
+// edges from goroutine to goroutine), no locks, no channels - one barrier per round, results hashed with FNV.
+func fnvOf(p []byte) uint32 {
+	h := uint32(2166136261)
+	for _, b := range p {
+		h = (h ^ uint32(b)) * 16777619
+	}
+	return h
+}
+
+// coldConsumer k of a shared document: render (several configurations), format (both writer flavours), walk.
+func coldConsumer(d *concDoc, k int) uint32 {
+	switch k % 6 {
+	case 0, 1, 2:
+		r := &commonmark.HTMLRenderer{ReferenceMap: d.refs, SoftBreakBehavior: commonmark.SoftBreakBehavior(k % 3), IgnoreRaw: k%6 == 2}
+		if k%6 == 1 {
+			r.FilterTag = concPreds["gfm"]
+		}
+		var buf bytes.Buffer
+		if r.Render(&buf, d.blocks) != nil {
+			return 1
+		}
+		return fnvOf(buf.Bytes())
+	case 3:
+		var out []byte
+		r := &commonmark.HTMLRenderer{ReferenceMap: d.refs, FilterTag: concPreds["script"]}
+		for _, b := range d.blocks {
+			out = r.AppendBlock(out, b)
+		}
+		return fnvOf(out)
+	case 4:
+		var buf bytes.Buffer
+		if format.Format(&buf, d.blocks) != nil {
+			return 1
+		}
+		return fnvOf(buf.Bytes())
+	default:
+		h := uint32(7)
+		for _, b := range d.blocks {
+			commonmark.Walk(b.AsNode(), &commonmark.WalkOptions{
+				Pre: func(c *commonmark.Cursor) bool {
+					h = h*31 + uint32(c.Index()+2)
+					if in := c.Node().Inline(); in != nil {
+						h = h*31 + fnvOf([]byte(in.Text(b.Source))) + uint32(in.Kind())
+					}
+					return true
+				},
+				Post: func(c *commonmark.Cursor) bool { h = h*17 + 1; return true },
+			})
+		}
+		return h
+	}
+}
+
+func coldParse(in []byte) uint32 {
+	blocks, refs := commonmark.Parse(in)
+	r := &commonmark.HTMLRenderer{ReferenceMap: refs}
+	var out []byte
+	for _, b := range blocks {
+		out = r.AppendBlock(out, b)
+		out = append(out, byte(b.StartLine), byte(b.StartOffset), byte(b.EndOffset))
+	}
+	return fnvOf(out)
+}
+
+// coldRounds runs rounds 0..rounds-1; in every round all n goroutines wait at a barrier and then call f(round, g) at once.
+func coldRounds(rounds, n int, f func(round, g int) uint32) [][]uint32 {
+	got := make([][]uint32, rounds)
+	for r := 0; r < rounds; r++ {
+		got[r] = make([]uint32, n)
+		start := make(chan struct{})
+		var wg sync.WaitGroup
+		for g := 0; g < n; g++ {
+			wg.Add(1)
+			go func(g int) {
+				defer wg.Done()
+				defer func() {
+					if recover() != nil {
+						got[r][g] = 0xdead
+					}
+				}()
+				<-start
+				got[r][g] = f(r, g)
+			}(g)
+		}
+		close(start)
+		wg.Wait()
+	}
+	return got
+}
 
 func concRace(res *Result, dur time.Duration) *Result {
 	n := runtime.GOMAXPROCS(0)
 	if n < 4 {
 		n = 4
 	}
+	// cold phase 0: the first use of the parser in this process is concurrent, every goroutine on an input of its own
+	var parseIns [][]byte
+	for _, s := range append(append([]string(nil), raceDocSources...), concParseInputs...) {
+		parseIns = append(parseIns, []byte(s))
+	}
+	for _, ex := range specExamples() {
+		parseIns = append(parseIns, []byte(ex))
+	}
+	parseRounds := (len(parseIns) + n - 1) / n
+	coldP := coldRounds(parseRounds, n, func(r, g int) uint32 { return coldParse(parseIns[(r*n+g)%len(parseIns)]) })
+	// cold phase 1: the first use of every shared tree - and of the renderer, the formatter and Walk in this process - is
+	// concurrent: all goroutines consume the same document at once, in different ways
+	var coldDocs []*concDoc
+	for _, s := range append(append([]string(nil), raceDocSources...), concDocSources...) {
+		coldDocs = append(coldDocs, newConcDoc(s))
+	}
+	for i, ex := range specExamples() {
+		if i%5 == 0 {
+			coldDocs = append(coldDocs, newConcDoc(ex))
+		}
+	}
+	worldDocs = append(worldDocs, coldDocs...)
+	coldC := coldRounds(len(coldDocs), n, func(r, g int) uint32 { return coldConsumer(coldDocs[r], g) })
+	// cold phase 2: the root blocks of one streamed document are rewritten at the same time by goroutines that share ONE
+	// InlineParser value (it holds nothing but the read-only reference matcher - the way a caller spreads inline parsing
+	// of a long document over its cores)
+	type streamed struct {
+		blocks []*commonmark.RootBlock
+		refs   commonmark.ReferenceMap
+	}
+	streamDoc := func(src string) streamed {
+		p := commonmark.NewBlockParser(bytes.NewReader([]byte(src)))
+		st := streamed{refs: make(commonmark.ReferenceMap)}
+		for {
+			b, err := p.NextBlock()
+			if err != nil {
+				return st
+			}
+			st.blocks = append(st.blocks, b)
+			st.refs.Extract(b.Source, b.AsNode())
+		}
+	}
+	rewriteSrc := strings.Repeat("- a *b* [r]\n- c `d`\n  - e **f**\n  - g\n\n> q _h_\n> - i ![r]\n\n[r]: /u\n\npara <b> &amp; x\n\n", 4)
+	sd := streamDoc(rewriteSrc)
+	ip := &commonmark.InlineParser{ReferenceMatcher: sd.refs}
+	renderOne := func(refs commonmark.ReferenceMap, b *commonmark.RootBlock) uint32 {
+		r := &commonmark.HTMLRenderer{ReferenceMap: refs}
+		return fnvOf(r.AppendBlock(nil, b))
+	}
+	rewriteRounds := (len(sd.blocks) + n - 1) / n
+	coldR := coldRounds(rewriteRounds, n, func(r, g int) uint32 {
+		k := r*n + g
+		if k >= len(sd.blocks) {
+			return 0
+		}
+		ip.Rewrite(sd.blocks[k])
+		return renderOne(sd.refs, sd.blocks[k])
+	})
+	// the sequential references, computed afterwards on fresh parses of the same sources
+	var coldBad []string
+	{
+		twin := streamDoc(rewriteSrc)
+		tip := &commonmark.InlineParser{ReferenceMatcher: twin.refs}
+		for k, b := range twin.blocks {
+			tip.Rewrite(b)
+			if w := renderOne(twin.refs, b); coldR[k/n][k%n] != w {
+				coldBad = append(coldBad, fmt.Sprintf("root block %d rewritten concurrently through a shared InlineParser renders %d, sequentially %d", k, coldR[k/n][k%n], w))
+			}
+		}
+	}
+	for r := range coldP {
+		for g := range coldP[r] {
+			in := parseIns[(r*n+g)%len(parseIns)]
+			if w := coldParse(append([]byte(nil), in...)); coldP[r][g] != w {
+				coldBad = append(coldBad, fmt.Sprintf("first concurrent parse of %.40q gave %d, sequential %d", in, coldP[r][g], w))
+			}
+		}
+	}
+	for r := range coldC {
+		twin := newConcDoc(string(coldDocs[r].src))
+		for g := range coldC[r] {
+			if w := coldConsumer(twin, g); coldC[r][g] != w {
+				coldBad = append(coldBad, fmt.Sprintf("first concurrent use (consumer %d) of the tree of %.40q gave %d, sequential on a fresh parse %d", g%6, coldDocs[r].src, coldC[r][g], w))
+			}
+		}
+	}
+	// warm phase: operation tuples as in the gated replays, free-running
 	src := newSource(77)
 	tuples := opTuples(3, src, 24)
 	var ops []concOp
@@ -796,6 +999,12 @@ func concRace(res *Result, dur time.Duration) *Result {
 	}
 	for i := 0; i < 3; i++ {
 		ops = append(ops, copWalkAbort(newConcDoc(concDocSources[i]), 2+i))
+	}
+	for i, s := range raceDocSources {
+		d := newConcDoc(s)
+		worldDocs = append(worldDocs, d)
+		r := &commonmark.HTMLRenderer{ReferenceMap: d.refs, FilterTag: concPreds["gfm"], SoftBreakBehavior: commonmark.SoftBreakBehavior(i % 3)}
+		ops = append(ops, copRender(d, r, "race"), copFormat(d, i%2 == 0), copWalk(d))
 	}
 	// every spec example: parsed (both routes) by several goroutines at once, and its tree rendered / formatted / walked
 	for i, ex := range specExamples() {
@@ -811,14 +1020,21 @@ func concRace(res *Result, dur time.Duration) *Result {
 			ops = append(ops, copRender(d, r, "spec-gfm"), copFormat(d, i%8 == 0), copWalk(d))
 		}
 	}
+	worldBefore := twinWorldDigest()
 	want := make([]int, len(ops))
 	for i, op := range ops {
 		want[i] = runSolo(op, 1).fin
 	}
-	before := worldDigestFn()()
+	before := worldBefore
 	var mu sync.Mutex
 	execs := 0
 	var bad []string
+	execs += len(coldP)*n + len(coldC)*n + len(sd.blocks)
+	for _, b := range coldBad {
+		if len(bad) < 20 {
+			bad = append(bad, b)
+		}
+	}
 	var wg sync.WaitGroup
 	deadline := time.Now().Add(dur)
 	for g := 0; g < n; g++ {
